@@ -126,7 +126,11 @@ func Apply(ctx context.Context, rc *regclient.RegClient, rSrc ref.Ref, opts ...O
 			if dl.rSrc.IsSet() {
 				rSrc = dl.rSrc
 			}
-			if dl.mod == deleted || len(dl.desc.URLs) > 0 {
+			urls := dl.desc.URLs
+			if dl.newDesc.Digest != "" {
+				urls = dl.newDesc.URLs
+			}
+			if dl.mod == deleted || len(urls) > 0 {
 				// skip deleted and external layers
 				return dl, nil
 			}
